@@ -3,7 +3,8 @@
 //! to a tracer and waits for the scheduler's grant).
 //!
 //!   holder <programs> <schedule> => <obs>
-//!     programs : `/`-separated per thread, each a string over s (set) g (get) i (is_set)
+//!     programs : `/`-separated per thread, each a string over s (set) g (get) i (is_set) d (format with Debug:
+//!                must perform no operation on the cell or the state through the shim, result D)
 //!     schedule : comma list of thread indices; every shim operation takes two grants of its thread:
 //!                the first performs the operation, the second lets the plain code after it run up to
 //!                the next operation (so another thread can be scheduled between an atomic operation
@@ -16,6 +17,36 @@
 
 use cadence_verif_harness::*;
 use std::io::{self, BufRead, Write};
+
+/// Compile-time obligations on the holder's auto traits (a failure here stops the engine build, which
+/// the orchestrator reports as a violation): it is shared between threads only for payloads that may be.
+mod auto_traits {
+    use cadence_macros::SingletonHolder;
+    use std::cell::Cell;
+    trait AmbiguousIfSync<A> {
+        fn item() {}
+    }
+    impl<T: ?Sized> AmbiguousIfSync<()> for T {}
+    impl<T: ?Sized + Sync> AmbiguousIfSync<u8> for T {}
+    trait AmbiguousIfSend<A> {
+        fn item() {}
+    }
+    impl<T: ?Sized> AmbiguousIfSend<()> for T {}
+    impl<T: ?Sized + Send> AmbiguousIfSend<u8> for T {}
+    fn is_sync<T: Sync>() {}
+    fn is_send<T: Send>() {}
+    #[allow(dead_code)]
+    fn obligations() {
+        // Send + Sync payload: holder is both
+        is_sync::<SingletonHolder<usize>>();
+        is_send::<SingletonHolder<usize>>();
+        // a payload that is not Sync (Cell) must not make a Sync holder: type inference is ambiguous, and
+        // the build fails, exactly if `SingletonHolder<Cell<u8>>: Sync`
+        let _ = <SingletonHolder<Cell<u8>> as AmbiguousIfSync<_>>::item;
+        // a payload that is not Send (Rc) must not make a Send holder
+        let _ = <SingletonHolder<std::rc::Rc<u8>> as AmbiguousIfSend<_>>::item;
+    }
+}
 
 #[cfg(cadence_verif)]
 mod imp {
@@ -112,7 +143,21 @@ mod imp {
         })));
     }
 
-    pub fn run_case(programs: &[String], schedule: &[usize], use_default: bool) -> (Vec<usize>, String) {
+    /// value carried by a global client: the thread number it was built with, read back from a metric's text
+    fn client_id(c: &cadence::StatsdClient) -> usize {
+        use cadence::prelude::*;
+        use cadence::Metric;
+        match c.count("x", 1) {
+            Ok(m) => m.as_metric_str().strip_prefix('t').and_then(|r| r.split('.').next()).and_then(|n| n.parse().ok()).unwrap_or(0),
+            Err(_) => 0,
+        }
+    }
+
+    /// mode 0: `SingletonHolder::new()`, 1: `::default()`, 2: the process-wide holder behind
+    /// `set_global_default` / `get_global_default` / `is_global_default_set` (once per process)
+    pub fn run_case(programs: &[String], schedule: &[usize], mode: u8) -> (Vec<usize>, String) {
+        let use_default = mode == 1;
+        let global = mode == 2;
         let n = programs.len();
         let ctx = Arc::new(Ctx {
             m: Mutex::new(Sched { turn: None, state: vec![TState::Starting; n], seq: 0, cur_events: vec![vec![]; n] }),
@@ -134,6 +179,34 @@ mod imp {
                 let mut calls: Vec<String> = Vec::new();
                 for c in prog.chars() {
                     let res = match c {
+                        's' if global => {
+                            let client = cadence::StatsdClient::from_sink(&format!("t{}", t + 1), cadence::NopMetricSink);
+                            cadence_macros::set_global_default(client);
+                            "u".to_string()
+                        }
+                        'g' if global => match cadence_macros::get_global_default() {
+                            Err(_) => "N".to_string(),
+                            Ok(a) => {
+                                let p = Arc::as_ptr(&a) as usize;
+                                let mut ps = ptrs.lock().unwrap();
+                                let cls = match ps.iter().position(|x| *x == p) {
+                                    Some(i) => i,
+                                    None => {
+                                        ps.push(p);
+                                        ps.len() - 1
+                                    }
+                                };
+                                format!("P{}@{}", client_id(&a), cls)
+                            }
+                        },
+                        'i' if global => {
+                            if cadence_macros::is_global_default_set() {
+                                "T".to_string()
+                            } else {
+                                "F".to_string()
+                            }
+                        }
+                        'd' if global => "D".to_string(),
                         's' => {
                             holder.set(t + 1);
                             "u".to_string()
@@ -153,6 +226,10 @@ mod imp {
                                 format!("P{}@{}", *a, cls)
                             }
                         },
+                        'd' => {
+                            let _ = format!("{:?}", holder);
+                            "D".to_string()
+                        }
                         _ => {
                             if holder.is_set() {
                                 "T".to_string()
@@ -216,7 +293,7 @@ mod imp {
 #[cfg(not(cadence_verif))]
 mod imp {
     pub fn install() {}
-    pub fn run_case(_programs: &[String], _schedule: &[usize], _use_default: bool) -> (Vec<usize>, String) {
+    pub fn run_case(_programs: &[String], _schedule: &[usize], _mode: u8) -> (Vec<usize>, String) {
         (vec![], "hook-guard-off".to_string())
     }
 }
@@ -230,10 +307,15 @@ fn run_line(line: &str) -> Option<String> {
     if f[0] != "holder" || f.len() != 3 {
         return Some(format!("{} => malformed", line));
     }
-    // a leading `D:` selects `SingletonHolder::default()` instead of `::new()`
-    let (use_default, progs) = match f[1].strip_prefix("D:") {
-        Some(r) => (true, r),
-        None => (false, f[1]),
+    // a leading `D:` selects `SingletonHolder::default()` instead of `::new()`; `G:` the process-wide
+    // holder behind the three global functions, which can be set once per process: a child runs the case
+    if f[1].starts_with("G:") && !IN_CHILD.load(std::sync::atomic::Ordering::Relaxed) {
+        return Some(run_in_child(line));
+    }
+    let (use_default, progs) = match (f[1].strip_prefix("D:"), f[1].strip_prefix("G:")) {
+        (Some(r), _) => (1u8, r),
+        (_, Some(r)) => (2u8, r),
+        _ => (0u8, f[1]),
     };
     let programs: Vec<String> = progs.split('/').map(|x| x.to_string()).collect();
     let schedule: Vec<usize> = if f[2] == "-" { vec![] } else { f[2].split(',').filter_map(|x| x.parse().ok()).collect() };
@@ -242,9 +324,31 @@ fn run_line(line: &str) -> Option<String> {
     Some(format!("holder {} {} => {}", f[1], sch, obs))
 }
 
+static IN_CHILD: std::sync::atomic::AtomicBool = std::sync::atomic::AtomicBool::new(false);
+
+fn run_in_child(case: &str) -> String {
+    use std::io::Read;
+    let exe = std::env::current_exe().unwrap();
+    let mut child = std::process::Command::new(exe)
+        .arg("child")
+        .stdin(std::process::Stdio::piped())
+        .stdout(std::process::Stdio::piped())
+        .stderr(std::process::Stdio::null())
+        .spawn()
+        .unwrap();
+    child.stdin.take().unwrap().write_all(format!("{}\n", case).as_bytes()).unwrap();
+    let mut out = String::new();
+    child.stdout.take().unwrap().read_to_string(&mut out).unwrap();
+    let _ = child.wait();
+    if out.trim().is_empty() {
+        return format!("{} => child-crashed", case);
+    }
+    out.trim().to_string()
+}
+
 fn ops_of(p: &str) -> usize {
     // two grants per shim operation
-    2 * p.chars().map(|c| match c { 's' => 3, 'g' => 2, _ => 1 }).sum::<usize>()
+    2 * p.chars().map(|c| match c { 's' => 3, 'g' => 2, 'd' => 0, _ => 1 }).sum::<usize>()
 }
 
 fn multinomial(counts: &[usize]) -> f64 {
@@ -285,6 +389,15 @@ fn main() {
     let stdout = io::stdout();
     let mut out = io::BufWriter::new(stdout.lock());
     imp::install();
+    if args.get(1).map(|s| s.as_str()) == Some("child") {
+        IN_CHILD.store(true, std::sync::atomic::Ordering::Relaxed);
+        let mut line = String::new();
+        io::stdin().read_line(&mut line).unwrap();
+        if let Some(l) = run_line(&line) {
+            writeln!(out, "{}", l).unwrap();
+        }
+        return;
+    }
     if args.get(1).map(|s| s.as_str()) == Some("replay") {
         for line in io::stdin().lock().lines() {
             if let Some(l) = run_line(&line.unwrap()) {
@@ -310,10 +423,24 @@ fn main() {
         vec!["gs", "ig"],
         vec!["s", "gg"],
         vec!["sgi", "is"],
+        vec!["sd", "dg"],
+        // the process-wide holder through set_global_default / get_global_default / is_global_default_set
+        // (a child process per case)
+        vec!["G:s", "i"],
+        vec!["G:s", "g"],
+        vec!["G:s", "s", "i"],
+        vec!["G:s", "s", "g"],
+        vec!["G:si", "sg"],
     ];
-    let limit = if tier == "quick" { 700 } else { 100000 };
     for set in &sets {
-        let counts: Vec<usize> = set.iter().map(|p| ops_of(p)).collect();
+        let is_global = set[0].starts_with("G:");
+        let limit = match (tier == "quick", is_global) {
+            (true, false) => 700,
+            (true, true) => 80,
+            (false, false) => 100000,
+            (false, true) => 4000,
+        };
+        let counts: Vec<usize> = set.iter().map(|p| ops_of(p.trim_start_matches("G:"))).collect();
         let mut all = Vec::new();
         if multinomial(&counts) <= limit as f64 {
             interleavings(&counts, &mut Vec::new(), &mut all, limit);
@@ -350,7 +477,7 @@ fn main() {
     for _ in 0..nrand {
         let nt = rng.range(2, 3) as usize;
         let progs: Vec<String> = (0..nt)
-            .map(|_| (0..rng.range(1, 4)).map(|_| *rng.pick(&['s', 'g', 'i', 'g'])).collect())
+            .map(|_| (0..rng.range(1, 4)).map(|_| *rng.pick(&['s', 'g', 'i', 'g', 's', 'g', 'i', 'g', 'd'])).collect())
             .collect();
         let total: usize = progs.iter().map(|p| ops_of(p)).sum();
         let sch: Vec<String> = (0..total + 2).map(|_| rng.below(nt as u64).to_string()).collect();
